@@ -286,5 +286,26 @@ def allStates (A : DFTA σ Q) : List Q :=
 /-- number of states of an automaton as Python counts them (`len(dfta.states)`) -/
 def numStates (A : DFTA σ Q) : Nat := A.states.length
 
+/-- Executable certificate that `c` (a naming of classes of states) is a congruence of the
+    automaton on the states `S`: states with the same name are both final or both not, and
+    replacing one by the other at one position of a rule leads to a rule whose target has the
+    same name.  `minimise` returns `mapStates c A` for `c = clsTuple st`; the driver evaluates
+    this certificate on the final partition of every run (theorem `C07_quotient`). -/
+def congruenceCert (A : DFTA σ Q) (c : Q → X) (S : List Q) : Bool :=
+  S.all fun q => S.all fun q' =>
+    if c q = c q' then
+      (decide (q ∈ A.finals) == decide (q' ∈ A.finals)) &&
+      (consumers A q).all (fun Sk =>
+        match AList.lookup Sk.1 A.rules, AList.lookup (Sk.1.1, Sk.1.2.set Sk.2 q') A.rules with
+        | some d, some d' => decide (c d = c d')
+        | some _, none => false
+        | none, _ => true)
+    else true
+
+/-- the final partition of `minimise` (for the certificate) -/
+def minimiseState (A : DFTA σ Q) (cls0 cls1 : List Q) (fuel : Nat) : Option (MinState Q) :=
+  let s2c : AList Q Nat := AList.ofList (A.states.map (fun q => (q, if q ∈ A.finals then 1 else 0)))
+  minLoop A fuel { s2c := s2c, c2s := [(0, cls0), (1, cls1)], n := 1, finished := false }
+
 end DFTA
 end PS
